@@ -199,6 +199,16 @@ Qed.
 Lemma unwrap1_items cs : unwrap1 (items_of_cmds cs) = items_of_cmds cs.
 Proof. destruct cs as [|[b|d] [|c r]]; reflexivity. Qed.
 
+Lemma multisig_ok_inert cs prev : inert_from prev cs = true -> multisig_ok (items_of_cmds cs) = true.
+Proof.
+  intros H. destruct cs as [|[m|d] r]; try reflexivity.
+  cbn [items_of_cmds map multisig_ok]. destruct (is_opn m); [|reflexivity].
+  fold (items_of_cmds r). cbn [inert_from] in H.
+  destruct r as [|[b|d] r']; try reflexivity.
+  cbn [inert_from] in H. apply andb_true_iff in H. destruct H as [Hd _].
+  cbn [items_of_cmds map count_keys]. destruct (get_data_type d); try discriminate; reflexivity.
+Qed.
+
 Lemma serialize_items_of_cmds cs : lib_serialize_items (items_of_cmds cs) = lib_serialize cs.
 Proof.
   induction cs as [|c r IH]; [reflexivity|].
@@ -223,5 +233,6 @@ Proof.
   - destruct cs as [|c cs']; [reflexivity|].
     exfalso. destruct (serialize_total (c :: cs') Hwf) as (s2 & Hs2 & Hl).
     assert (s2 = []) by congruence. subst. simpl in Hl. lia.
-  - rewrite Hw, Hp, classify_inert by exact Hin. cbn [unwrap_res]. rewrite unwrap1_items. reflexivity.
+  - rewrite Hw, Hp, classify_inert by exact Hin. cbn [unwrap_res]. cbv zeta. rewrite unwrap1_items.
+    rewrite (multisig_ok_inert cs false Hin). reflexivity.
 Qed.
